@@ -168,7 +168,7 @@ def expected_term(model, t, path, val):
             probs.append("the elements dumped are those of `%s`, not of the value" % A.src(it))
         if kinds == ["children"]:
             k = val.get("len")
-            return ("tuple",) + tuple(("load", i + 1) for i in range(k)), probs
+            return B.simplify(("tuple",) + tuple(("load", i + 1) for i in range(k))), probs
         fmt = rest[0][1]
         la = rest[0][2]
         if len(la) != 1 or A.src(la[0]) != "len(%s)" % A.src(it):
